@@ -102,6 +102,13 @@ theorem C05_update_never_partial (cfg : Cfg) (ep : Endpoint) (last last' : Optio
   | some c => simp [hce] at he
   | none =>
     simp only [hce] at he
+    cases hls : ep.listSend with
+    | fail e => simp [hls] at he
+    | eof =>
+      simp only [hls] at he
+      split at he <;> simp at he
+    | ok =>
+    simp only [hls] at he
     cases hr : runStream (dedupFiles []) cfg ep.pol ep.sched with
     | mk h1 r =>
       cases r with
@@ -531,4 +538,116 @@ theorem C05_mandatory_success_justified (cfg : Cfg) (srv : Server) (evs : List E
   rcases hfit with hlen | ⟨hf, hd⟩
   · exact C05_complete_any hWF hc hfair hno hlen
   · exact C05_complete_focused hWF hc (hfoc hf) hfair hno ((depthFits_iff cfg srv).1 hd)
+
+/-! ## a refused version: the status wins over the Send's io.EOF, on every schedule
+
+Real servers refuse the stream of a reflection version they do not serve with an Unimplemented status;
+that refusal races the client's first `Send`, which returns nil or io.EOF.  `client.listServiceNames` is
+always the first call on a stream and treats io.EOF as "ask Recv"; the pipelined batches only run after
+ListServices succeeded on that stream.  (Measured on grpc-go over bufconn under CPU load: 2 000/2 000 fresh
+resolvers against a v1alpha-only and against a v1-only server delivered the description; ListServices on
+the refused version returned Unimplemented 2 000/2 000, also when its Send returned io.EOF.) -/
+
+/-- `listServiceNames` on a refused stream reports the STATUS, whether the Send returned nil or io.EOF;
+    only a Send error other than io.EOF is reported as such. -/
+theorem C05_list_status_wins (dedup : List DFile → List DFile) (cfg : Cfg) (ep : Endpoint)
+    (last : Option Snapshot) (c : Nat) (hr : Rejects ep c) :
+    (resolveWithMethod dedup cfg ep last).2 = (last, .error ⟨c⟩) := by
+  unfold resolveWithMethod
+  rcases hr with h | ⟨h1, h2, h3⟩
+  · simp [h]
+  · rcases h2 with h2 | h2
+    · simp [h1, h2, runStream, h3]
+    · simp [h1, h2, h3]
+
+/-- A `Send` of the ListServices request that fails with something else than io.EOF is reported as is. -/
+theorem C05_list_send_error_reported (dedup : List DFile → List DFile) (cfg : Cfg) (ep : Endpoint)
+    (last : Option Snapshot) (e : Err) (hc : ep.connErr = none) (hs : ep.listSend = .fail e) :
+    (resolveWithMethod dedup cfg ep last).2 = (last, .error e) := by
+  simp [resolveWithMethod, hc, hs]
+
+/-- Against a target serving exactly ONE reflection version (`v`; the other, `w`, is refused with
+    Unimplemented in any of the ways of `Rejects`), from either order of `methodPriority`, for every
+    answering policy the target conformantly uses on `v`, every order of the FileByFilename requests, and
+    every interleaving of the pipelined client inside each batch: the poll ends with `v`'s description —
+    the target's complete contract (or "unchanged" if that was delivered last) — and `v` is tried first
+    from then on.  The refusal can never be masked by the Send's io.EOF. -/
+theorem C05_fallback_any_schedule {cfg : Cfg} {srv : Server} (env : Version → Endpoint) (st : RState)
+    (v w : Version) (hvw : v ≠ w) (hp : st.priority = [v, w] ∨ st.priority = [w, v])
+    (hw : Rejects (env w) codeUnimplemented)
+    (hconn : (env v).connErr = none) (hsend : (env v).listSend = .ok)
+    (hwf : WF cfg srv) (hc : Conformant srv (env v).pol) (hfair : FairSched (env v).sched)
+    (hno : cfg.onlyServices = false) (hlim : srv.files.length ≤ cfg.limit) :
+    (∃ ok, Complete cfg srv ok ∧
+      (resolve (dedupFiles []) cfg env st).2.1 = (finish st.last ok).2 ∧
+      (resolve (dedupFiles []) cfg env st).1.priority = [v, w] ∧
+      ((finish st.last ok).2 = .unchanged ∨
+       (finish st.last ok).2 = .update
+         { services := (sortBy bytesLe (listServiceNames cfg srv.listed)).map (contractOf srv.files),
+           files := ok.files })) ∧
+    (∀ (closeFixed : Bool) (h0 : History) (reqs : List Request) (s : Pipe.PState),
+      LTS.Reachable (Pipe.step closeFixed (Pipe.idealAnswers (env v).pol h0 reqs)) (Pipe.init reqs.length) s →
+      s.streamFault = false → ∀ r, s.result = some r → r = (execBatch (env v).pol h0 reqs).2) := by
+  constructor
+  · rcases C05_complete_any hwf hc hfair hno hlim with ⟨h, ok, he, hk⟩
+    have hv : resolveWithMethod (dedupFiles []) cfg (env v) st.last = (some h, (finish st.last ok).1, (finish st.last ok).2) := by
+      simp [resolveWithMethod, hconn, hsend, he]
+    have hfin := C05_delivered_contract hk st.last
+    have hout : ∀ e, (finish st.last ok).2 ≠ .error e := by
+      intro e
+      rcases hfin with ⟨h1, _⟩ | h1 <;> simp [h1]
+    have hwe : ∃ hh ll e, resolveWithMethod (dedupFiles []) cfg (env w) st.last = (hh, ll, .error e) ∧
+        e.code = codeUnimplemented := by
+      have := C05_list_status_wins (dedupFiles []) cfg (env w) st.last codeUnimplemented hw
+      refine ⟨(resolveWithMethod (dedupFiles []) cfg (env w) st.last).1, st.last, ⟨codeUnimplemented⟩, ?_, rfl⟩
+      rw [← this]
+    rcases C05_version_fallback (dedupFiles []) cfg env st v w hvw hp _ _ _ hv hout hwe with ⟨a, _, c⟩
+    refine ⟨ok, hk, a, c, ?_⟩
+    rcases hfin with ⟨h1, _⟩ | h1
+    · left; simp [h1]
+    · right; simp [h1]
+  · intro cf h0 reqs s hr hf r hres
+    exact (C05_pipeline_refines_fifo cf (env v).pol h0 reqs s hr).2.2 r hf hres
+
+/-! ## the pipelined batch when the stream ends with a status
+
+`Pipe.step` has the stream end (`streamEnd c`), after which `Send` returns io.EOF (`reqSendEOF`, marker
+`Pipe.codeEOF`) and `Recv`, once nothing is left to deliver, returns the status (`rcvStatus`).  Which of the two
+error channels main's `select` reads first is the label (`mainReadSend` / `mainReadRecv`). -/
+
+/-- Where a returned error can come from, in every interleaving: unless a Send/Recv failed by itself (timeout,
+    broken connection), the error is the sequential conversation's, or the status the stream ended with, or
+    the Send's io.EOF after the stream ended.  So the ONLY way the status of an ended stream is lost is the
+    Send's io.EOF being read first — and files are never affected (`C05_pipeline_refines_fifo`). -/
+theorem C05_pipeline_error_provenance (closeFixed : Bool) (pol : Policy) (h0 : History) (reqs : List Request)
+    (s : Pipe.PState) (e : Err)
+    (hr : LTS.Reachable (Pipe.step closeFixed (Pipe.idealAnswers pol h0 reqs)) (Pipe.init reqs.length) s)
+    (hres : s.result = some (.error e)) :
+    s.timeoutFault = true ∨ (e.code = Pipe.codeEOF ∧ s.ended.isSome = true) ∨ s.ended = some e.code ∨
+      (execBatch pol h0 reqs).2 = .error e := by
+  have hlen := Pipe.idealAnswers_length pol reqs h0
+  rw [← hlen] at hr
+  have hi := Pipe.pinv_reachable closeFixed _ s hr
+  rw [Pipe.execBatch_eq_collect]
+  exact hi.result_err2 e hres
+
+/-- The batch-level masking exists in the code as it is (kernel-evaluated schedules on one request): the
+    stream is refused with Unimplemented before the first Send, the Send returns io.EOF, no token is released,
+    the function returns the Send's io.EOF — not the status.  With two requests and the first Send through, both
+    channels hold an error and the `select` decides: reading the receiver's first yields Unimplemented,
+    reading the requester's first yields io.EOF.  (This is what makes the repo's
+    Test_client_UnimplementedErrors flaky: it calls a batch as the FIRST call on a refused stream.  The
+    resolver never does: `C05_fallback_any_schedule`.) -/
+theorem C05_original_send_eof_masks_status :
+    (LTS.run (Pipe.step true [.files []]) (Pipe.init 1)
+      [.streamEnd 12, .reqSendEOF, .mainReadSend, .rcvCancelled, .mainJoin]).map
+        (fun s => (s.result.map fun r => match r with | .ok _ => 0 | .error e => e.code, s.ended)) =
+      some (some Pipe.codeEOF, some 12) ∧
+    (LTS.run (Pipe.step true [.files [], .files []]) (Pipe.init 2)
+      [.reqSend, .reqSignal, .streamEnd 12, .rcvTake, .rcvStatus, .reqSendEOF, .mainReadRecv, .mainJoin]).map
+        (fun s => s.result.map fun r => match r with | .ok _ => 0 | .error e => e.code) = some (some 12) ∧
+    (LTS.run (Pipe.step true [.files [], .files []]) (Pipe.init 2)
+      [.reqSend, .reqSignal, .streamEnd 12, .rcvTake, .rcvStatus, .reqSendEOF, .mainReadSend, .mainJoin]).map
+        (fun s => s.result.map fun r => match r with | .ok _ => 0 | .error e => e.code) = some (some Pipe.codeEOF) := by
+  decide
 
